@@ -14,6 +14,7 @@ from kverif.common import Deadline, case_rng, stable_hash, tier_value
 ID = 'C12'
 LEVEL = 'exploration'
 EXHAUSTIVE = True
+EXHAUSTIVE_SCOPE = 'every (pipe,data,model) with product <= bound and every local rank is instantiated; cost dictionaries are drawn per family'
 RULE = ('exhaustive over (pipe,data,model) with product <= 24 (thorough <= 96), every local rank, cost families (uniform, ties, zeros, random, geometric; 1..2*stage+1 layers); '
         'non-trivial: world>1 and (model>1 or data>1); distinct = (pp,dp,mp,family); digests compared across PYTHONHASHSEED 0/1/4242')
 ASSUMPTIONS = ['the DeepSpeed topology is the stand-in in stubs/deepspeed (axes pipe,data,model; row-major)',
